@@ -9,6 +9,11 @@ TECH = ("bounded model checking of the compiled Rust code: Kani 0.68 -> CBMC 6.1
 
 TECH2 = TECH + "; for C01, C02, C03, C04, C05, C11, C12, C13, C15 additionally path-forking symbolic execution of rustc's MIR with z3 (mirsym)"
 
+TECH_MIRSYM = ("symbolic execution of the real code's MIR (rustc -Zunpretty=mir of /repo's current tree) with z3 deciding every branch and "
+               "post-condition over fully symbolic inputs within stated bounds (mirsym, /verif/mirsym); counterexamples replayed natively "
+               "through the public API before being reported")
+MIRSYM_ONLY = {"C06", "C14", "C18"}
+
 CLAIMED = {
     # id: (level text, level_note, design_ref)
     "C01": (
@@ -104,6 +109,21 @@ CLAIMED = {
         "would violate it and is outside this kernel). Counterexamples are replayed natively with real PatternLinter "
         "implementations through LintGroup's public API (long-lived vs fresh linter).",
         "DESIGN.md section 4, C05"),
+    "C06": (
+        "Kernel decided by MIR symbolic execution (mirsym, z3): the real <SpellCheck<MutableDictionary> as Linter>::lint, end to end - "
+        "word iteration, contains_exact_word on the word and its lower-case form, the dialect gate, the suggestion cache and back-off "
+        "loop, the real suggest_correct_spelling / MutableDictionary::fuzzy_match / edit_distance_min_alloc / order_suggestions, the "
+        "dialect filter, the cap at three suggestions, capitalisation of suggestions - against a real MutableDictionary (built with "
+        "append_word) holding one word of 1-2 (3) fully symbolic ASCII letters with arbitrary metadata and dialect, an arbitrary active "
+        "dialect, and documents of 1-3 tokens whose words are 1-2 (3) fully symbolic letters: a listed word (listed capitalisation, or "
+        "capitalised / upper-case form of a lower-case entry, in the active dialect) is never reported; a word the dictionary lacks "
+        "under every capitalisation is reported exactly once with exactly its span and kind Spelling; only words are reported; every "
+        "suggestion is the dictionary word (up to capitalising its first letter) of the active dialect; at most three suggestions.",
+        "Narrow kernel: one-word dictionaries, words <= 3 ASCII letters, the token metadata Document::parse would attach is supplied "
+        "by the harness from the same dictionary. WordId's hash modelled as collision-free, hashbrown map and LRU cache as association "
+        "lists. Outside the claim: the 130k-word curated dictionary and its affix expansion, the FST back-end, non-ASCII / apostrophe "
+        "words, multi-word dictionaries, the other front-ends. Counterexamples are replayed through Document::new + SpellCheck::new.",
+        "DESIGN.md section 4, C06"),
     "C08": (
         "The real harper-ls/src/pos_conv.rs (compiled into the harness crate) is decided for every text of <= 3 (4-5) chars over "
         "{LF, CR, a, U+1F600, TAB, e-acute} and every span: span_to_range equals an independent LSP reference (line = LFs before, "
@@ -153,6 +173,19 @@ CLAIMED = {
         "mirsym trusts hand-written contracts for the std calls (stable sort_by_key, Vec::retain, VecDeque, slice iterators), listed "
         "in evidence; code using a std call without a model is reported inconclusive, never passed. Bounds: <= 5 lints.",
         "DESIGN.md section 4, C13"),
+    "C14": (
+        "Kernel decided by MIR symbolic execution (mirsym, z3): the real IgnoredLints::{ignore_lint, is_ignored, remove_ignored}, "
+        "LintContext::from_lint (the two-character prequel / sequel windows, token_indices_intersecting, Token::to_fat) and the "
+        "derive-generated Hash impls of LintContext, LintKind, Suggestion, FatToken and TokenKind, on documents of 3-6 word / space / "
+        "period tokens with fully symbolic letters and lints with symbolic kind, message, priority and suggestion: after a lint is "
+        "ignored, a lint on any token of the same document is hidden exactly when it equals the ignored one in every field and in the "
+        "text and kinds of its flagged and surrounding tokens; the ignored lint stays hidden when a word more than two characters away "
+        "is replaced and when text is inserted far in front of it (position independence).",
+        "DefaultHasher (SipHash) is replaced by a collision-free recording hasher and HashSet<u64> by a list: hash collisions are outside "
+        "the claim, as are export/import of the list (serde), number tokens (f64 hashing), harper-ls / harper-wasm glue and documents "
+        "beyond 6 tokens. The token windows are re-specified independently in the harness ([s-2,s), [s,e), [s+2,s+4)). Counterexamples are "
+        "replayed through IgnoredLints' public API on real plain-English documents.",
+        "DESIGN.md section 4, C14"),
     "C15": (
         "Kani/CBMC: edit_distance / edit_distance_min_alloc equals the recursive Levenshtein definition for all pairs of strings up "
         "to 3x3 (4x4) chars over all Unicode scalars, is symmetric, and does not depend on the previous contents of its scratch "
@@ -178,21 +211,28 @@ CLAIMED = {
         "Outside the claim: decimal text -> f64 (str::parse::<f64>) and condense_number_suffixes' token surgery on real parser "
         "output. Trusted: Kani's f64 model, the harness-side reference rule.",
         "DESIGN.md section 4, C17"),
+    "C18": (
+        "Kernel decided by MIR symbolic execution (mirsym, z3): the real make_title_case + should_capitalize_token (+ WordMetadata::or, "
+        "is_proper_noun, CharStringExt::to_lower, the SPECIAL_CONJUNCTIONS list read from /repo) on token sequences with ONE fully "
+        "symbolic word of 2-3 (4) ASCII letters (both cases) in first / middle / last position next to the concrete unknown word 'ab', "
+        "spaces and hyphens; the word's metadata (proper-noun flag, determiner, preposition) is arbitrary and the dictionary is a stub held "
+        "to its contract (metadata of the lower-cased word arbitrary but fixed; canonical spelling equals the word up to letter case, or "
+        "none): the result has the input's length, differs from it only in letter case, its first word starts with an upper-case letter, "
+        "and title-casing the result again (same tokens) changes nothing.",
+        "Narrow kernel: one symbolic word per title, metadata restricted to the parts title-casing reads, ASCII letters only (curly "
+        "apostrophe normalisation of proper nouns is outside), idempotence is checked on the same token structure (re-lexing the output is "
+        "outside), the curated dictionary's real answers are outside. Counterexamples are replayed through make_title_case_str with the "
+        "curated dictionary and with small custom dictionaries.",
+        "DESIGN.md section 4, C18"),
 }
 
 NOT_APPLICABLE = {
-    "C06": "quantifies over the 130k-word curated dictionary (affix expansion, hashbrown, FST); SpellCheck::new builds a 10,000-entry "
-           "LRU with RandomState before any decision",
     "C07": "async tokio file I/O, crash points and server commands; no file-system/async model in the engine and a hand model would "
            "not be the real code",
     "C09": "concurrent async handlers over tokio Mutex/RwLock and a client round trip; Kani does not handle concurrency",
     "C10": "absence of side effects and a dependency-graph property; there is no assertion over inputs for a solver to decide",
-    "C14": "identity is a SipHash of tokens, message and suggestions in a HashSet<u64>; needs Document::new (Kani compiler crash on "
-           "thread_local), hashing and serde",
     "C16": "whole-program glue over the curated dictionary, serde and wasm-bindgen; its solver-amenable ingredients are decided "
            "under C03 and C13",
-    "C18": "every word goes through a lazy_static HashSet<Vec<char>> lookup (RandomState hashing of symbolic chars) and heap copies; "
-           "a 1-token probe gave no verdict in 5 min / 5 GB",
     "C19": "serialising a Record crashes the Kani compiler and the crux (JSON escaping never emits a raw line break) lives in "
            "serde_json, whose one-character round trip gave no verdict in 15 min",
 }
@@ -212,10 +252,10 @@ def main():
                 "thorough_cmd": f"./check {pid} --tier thorough",
                 "evidence_file": f"/verif/evidence/{pid}.json",
                 "replay_cmd_template": "./check --replay {path}",
-                "engine": "kani-cbmc",
+                "engine": "mirsym" if pid in MIRSYM_ONLY or pid in ("C04", "C05", "C11") else "kani-cbmc",
                 "level_claimed": {"category": "model_checking", "text": text, "design_ref": ref},
                 "level_note": note,
-                "technique": TECH2 if pid in ("C13", "C02", "C01", "C03", "C04", "C05", "C11", "C12", "C15") else TECH,
+                "technique": TECH_MIRSYM if pid in MIRSYM_ONLY or pid in ("C04", "C05", "C11") else (TECH2 if pid in ("C13", "C02", "C01", "C03", "C12", "C15") else TECH),
             })
         elif pid not in na:
             na[pid] = "check not built yet (work in progress; see DESIGN.md)"
@@ -239,7 +279,7 @@ def main():
                               "classifies results, replays counterexamples natively and writes evidence",
         }, {
             "name": "mirsym", "path": "/verif/mirsym",
-            "serves_properties": ["C01", "C02", "C03", "C04", "C05", "C11", "C12", "C13", "C15"],
+            "serves_properties": ["C01", "C02", "C03", "C04", "C05", "C06", "C11", "C12", "C13", "C14", "C15", "C17", "C18"],
             "kind_free_text": "path-forking symbolic executor for rustc's textual MIR (dumped from /repo on every run with the "
                               "nightly toolchain), z3 4.x via python3-vt decides branch feasibility and post-conditions; std calls "
                               "are dispatched to hand-written contracts (models.py)",
